@@ -4,5 +4,6 @@ CONSTANTS
   Sample = 1
   BaseMod = 1
   BaseRem = 0
+  EditSet = "all"
 INVARIANT Emit
 CHECK_DEADLOCK FALSE
